@@ -165,7 +165,7 @@ Failed(gs) == {g[1] : g \in {x \in gs : ~x[2]}}
 \* Guards of a pull by a LIVE subscription s at time t.
 \* abandoned: the requester of this pull may have gone away before the turn (then an empty
 \* answer to nobody is not a response the contract speaks about).
-PullGuards(s, max, out, queueAfter, t, abandoned) ==
+PullGuards(s, max, out, queueAfter, t, abandoned, early) ==
     LET msgs  == [i \in 1..Len(out) |-> out[i].m]
         acks  == [i \in 1..Len(out) |-> out[i].ack]
         fresh == {m \in SeqSet(s.queue) : m \notin s.seen}
@@ -183,18 +183,18 @@ PullGuards(s, max, out, queueAfter, t, abandoned) ==
          G("C08", LET fo == SelectSeq(msgs, LAMBDA m : m \in fresh)
                       fq == SelectSeq(s.queue, LAMBDA m : m \in fresh)
                   IN Len(fo) <= Len(fq) /\ fo = SubSeq(fq, 1, Len(fo))),
-         G("C04", \A i \in 1..Len(out) : out[i].dl >= t + s.D - Gran /\ out[i].dl <= t + s.D + Slack) }
+         G("C04", \A i \in 1..Len(out) : out[i].dl >= t + s.D - early /\ out[i].dl <= t + s.D + Slack) }
 
 \* Guards of one expiry batch of subscription s at time t.
-ExpireGuards(s, acks, t, judgeLate) ==
+ExpireGuards(s, acks, t, judgeLate, early) ==
     { G("BIND", acks # <<>> /\ NoDup(acks)),
       G("C02", SeqSet(acks) \subseteq DOMAIN s.lease),     \* never an acknowledged / nacked delivery
-      G("C04", \A i \in 1..Len(acks) : acks[i] \in DOMAIN s.lease => t >= s.lease[acks[i]].lo - Gran),
+      G("C04", \A i \in 1..Len(acks) : acks[i] \in DOMAIN s.lease => t >= s.lease[acks[i]].lo - early),
       G("C04", judgeLate => \A i \in 1..Len(acks) : acks[i] \in DOMAIN s.lease => t <= s.lease[acks[i]].hi) }
 
-ModGuards(s, mods) ==
+ModGuards(s, mods, early) ==
     { G("C05", \A i \in 1..Len(mods) :
-                  mods[i].dl # None => (mods[i].dl >= mods[i].lo - Gran /\ mods[i].dl <= mods[i].hi)) }
+                  mods[i].dl # None => (mods[i].dl >= mods[i].lo - early /\ mods[i].dl <= mods[i].hi)) }
 
 (***************************************************************************)
 (* Initial state.                                                          *)
@@ -355,15 +355,15 @@ SubPost_A(si, ids) ==
     /\ UNCHANGED <<tmap, smap, T, torder, sorder, reg, pubs>>
 SubPost(si, ids) == AllHold(SubPost_G(si, ids)) /\ SubPost_A(si, ids) /\ now' = now
 
-SubPull_G(si, max, out, queueAfter, t, abandoned) ==
+SubPull_G(si, max, out, queueAfter, t, abandoned, early) ==
     IF si \notin DOMAIN S THEN { G("BIND", FALSE) } ELSE
-    IF S[si].st = "live" THEN PullGuards(S[si], max, out, queueAfter, t, abandoned)
+    IF S[si].st = "live" THEN PullGuards(S[si], max, out, queueAfter, t, abandoned, early)
     ELSE { G("C11", out = <<>>) }           \* a deleted subscription receives nothing further
 SubPull_A(si, max, out, queueAfter, t) ==
     /\ S' = IF S[si].st = "live" THEN [S EXCEPT ![si] = SubAfterPull(@, out, queueAfter, t)] ELSE S
     /\ UNCHANGED <<tmap, smap, T, torder, sorder, reg, pubs>>
 SubPull(si, max, out, queueAfter) ==
-    AllHold(SubPull_G(si, max, out, queueAfter, now, FALSE)) /\ SubPull_A(si, max, out, queueAfter, now) /\ now' = now
+    AllHold(SubPull_G(si, max, out, queueAfter, now, FALSE, Gran)) /\ SubPull_A(si, max, out, queueAfter, now) /\ now' = now
 
 SubAck_G(si, acks) == { G("BIND", si \in DOMAIN S) }
 SubAck_A(si, acks) ==
@@ -373,10 +373,10 @@ SubAck(si, acks) == AllHold(SubAck_G(si, acks)) /\ SubAck_A(si, acks) /\ now' = 
 
 \* mods: sequence of [ack, dl, lo, hi]; queueAfter: the backlog after the turn.
 NackedBy(s, mods) == SeqSet(SubAfterMods(s, mods).queue) \ SeqSet(s.queue)
-SubModify_G(si, mods, queueAfter) ==
+SubModify_G(si, mods, queueAfter, early) ==
     IF si \notin DOMAIN S THEN { G("BIND", FALSE) } ELSE
     IF S[si].st # "live" THEN {} ELSE
-    ModGuards(S[si], mods) \cup
+    ModGuards(S[si], mods, early) \cup
     { G("C05", SameElementsPlus(queueAfter, S[si].queue, NackedBy(S[si], mods))),
       G("C08", SameOrderOf(queueAfter, S[si].queue, SeqSet(S[si].queue) \ S[si].seen)) }
 SubModify_A(si, mods, queueAfter) ==
@@ -385,19 +385,19 @@ SubModify_A(si, mods, queueAfter) ==
             ELSE S
     /\ UNCHANGED <<tmap, smap, T, torder, sorder, reg, pubs>>
 SubModify(si, mods, queueAfter) ==
-    AllHold(SubModify_G(si, mods, queueAfter)) /\ SubModify_A(si, mods, queueAfter) /\ now' = now
+    AllHold(SubModify_G(si, mods, queueAfter, Gran)) /\ SubModify_A(si, mods, queueAfter) /\ now' = now
 
 ExpiredBy(s, acks) == {s.lease[a].m : a \in SeqSet(acks) \cap DOMAIN s.lease}
-SubExpire_G(si, acks, queueAfter, judgeLate, t) ==
+SubExpire_G(si, acks, queueAfter, judgeLate, t, early) ==
     IF si \notin DOMAIN S \/ S[si].st # "live" THEN { G("BIND", FALSE) } ELSE
-    ExpireGuards(S[si], acks, t, judgeLate) \cup
+    ExpireGuards(S[si], acks, t, judgeLate, early) \cup
     { G("C01", SameElementsPlus(queueAfter, S[si].queue, ExpiredBy(S[si], acks))),
       G("C08", SameOrderOf(queueAfter, S[si].queue, SeqSet(S[si].queue) \ S[si].seen)) }
 SubExpire_A(si, acks, queueAfter) ==
     /\ S' = [S EXCEPT ![si] = [SubAfterExpire(@, acks) EXCEPT !.queue = queueAfter]]
     /\ UNCHANGED <<tmap, smap, T, torder, sorder, reg, pubs>>
 SubExpire(si, acks, queueAfter, judgeLate) ==
-    AllHold(SubExpire_G(si, acks, queueAfter, judgeLate, now)) /\ SubExpire_A(si, acks, queueAfter) /\ now' = now
+    AllHold(SubExpire_G(si, acks, queueAfter, judgeLate, now, Gran)) /\ SubExpire_A(si, acks, queueAfter) /\ now' = now
 
 SubDeleteBegin_A(si) ==
     /\ S' = [S EXCEPT ![si].st = IF @ = "live" THEN "deleting" ELSE @]
